@@ -81,10 +81,14 @@ def obligations(tier, seed):
     cor_t = cor_q + [dict(f, TS=t, PMIN=184, PMAX=184, OBUF=o) for f in cor_frames[:2] for t in (0, 1) for o in (1, 3, 187, 188, 189, 400)] \
                   + [dict(cor_frames[3], TS=0, PMIN=184, PMAX=184, OBUF=100)]
     uw_rt = {"extract_data_units.8": 12, "encode_stuffing.0": 10, "memcpy.0": 1000, "memset.0": 1000, "memmove.0": 1000, "memmove.1": 1000}
-    uw_pk = dict(uw_rt); uw_pk.update({"rec_cb.0": 600, "gather_pes.0": 600, "gather_pes.1": 6, "gather_pes.2": 200, "check_stuffing_tail.0": 300,
+    uw_pk = dict(uw_rt); uw_pk.update({"rec_cb.0": 600, "gather_pes.0": 600, "gather_pes.1": 600, "gather_pes.2": 600, "check_stuffing_tail.0": 300,
                                        "demux_pes_packet.1": 4, "demux_pes_packet.3": 12, "demux_pes_packet_frame.1": 3, "demux_ts_packet.0": 4,
                                        "demux_ts_packet.9": 16, "rdx_cb.0": 12})
     fs = ["--max-field-sensitivity-array-size", "1200"]
+    # reset_frame(): `if (f->rp > f->raw)` compares two NULL pointers when no raw buffer is attached (always, through the public API).  CBMC's pointer
+    # check treats a relational comparison of NULL pointers as a fatal failure and reports every later property UNKNOWN.  The comparison is rewritten
+    # to compare the addresses as integers (same result on every supported platform); recorded as a cut + ub_note in the report.
+    RF = (r"if \(f->rp > f->raw\)", "if ((uintptr_t) f->rp > (uintptr_t) f->raw)")
     pk_desc = ("vbi_dvb_pes_mux_new/vbi_dvb_ts_mux_new + set_pes_packet_size + set_data_identifier + vbi_dvb_mux_feed with a recording callback; frame structure on the grid, "
                "symbolic 64-bit PTS, payload, data_identifier of the class: accepted iff every selected line is legal, ascending and the units fit max_packet_size-46; "
                "PES: 00 00 01 BD, PES_packet_length = size-6, size multiple of 184 in [min,max], '10' flags, data_alignment_indicator, PTS only (0x80), "
@@ -96,7 +100,8 @@ def obligations(tier, seed):
     pk_enc = ["vbi_dvb_mux_feed", "generate_pes_packet", "encode_timestamp", "init_pes_packet_header", "generate_ts_packet_header",
               "vbi_dvb_pes_mux_new", "vbi_dvb_ts_mux_new", "vbi_dvb_mux_set_pes_packet_size", "vbi_dvb_mux_set_data_identifier",
               "vbi_dvb_demux_feed", "demux_pes_packet", "demux_pes_packet_frame", "valid_vbi_pes_packet_header", "decode_timestamp", "extract_data_units", "wrap_around"]
-    pk_assumes = ["R7/R2(e): multiplexer = directly constructed post-constructor state in a static object (zero + the fields the constructor sets + real "
+    pk_assumes = ["reset_frame(): NULL > NULL pointer comparison rewritten to an integer comparison (patch), see ub note",
+                  "R7/R2(e): multiplexer = directly constructed post-constructor state in a static object (zero + the fields the constructor sets + real "
                   "init_pes_packet_header) with an exact-size packet buffer of 4+max_packet_size bytes instead of 65508; mux_ctor decides that the real constructors "
                   "produce exactly this state",
                   "R7/R2(e): demux = static zero object + real vbi_dvb_demux_reset(); frame output array re-pointed to NL+2 lines"]
@@ -134,12 +139,13 @@ def obligations(tier, seed):
            desc="*packet_left < 2, or not a multiple of 46 with data_identifier 0x10..0x1F: FALSE, all arguments and the buffer unchanged",
            encodes=["vbi_dvb_multiplex_sliced"], bounds="none (all 2^32 sizes/data_identifiers)", timeout=120, vin_size=256, stubs=stubs, **common),
         Ob("mux_packets_pes", func="h_mux_packets", unwind=51, unwindset=uw_pk, flags=fs, defines={"ENV_LOOP_MEM": 1, "PIDV": "0x123"},
+           patch={"src/dvb_demux.c": [RF]},
            desc=pk_desc, encodes=pk_enc, assumes=pk_assumes + ["R2(e): demux pes_wrap.buffer re-pointed to an exact-size array of max_packet_size+8 bytes"],
            bounds=pk_bounds, outside=pk_outside, grid=[g for g in pk_t if g["TS"] == 0], quick_grid=[g for g in pk_q if g["TS"] == 0],
            reach=["end"], timeout=400, mem_gb=3, vin_size=900, stubs=stubs + [loopmem], **common),
         Ob("mux_packets_ts", func="h_mux_packets", unwind=51, unwindset=uw_pk, flags=fs,
            defines={"ENV_LOOP_MEM": 1, "PIDV": "0x1ABC", "SCALED_PES_BUFFER": 1, "PESCAP_SCALED": 576},
-           patch={"src/dvb_demux.c": [(r"pes_buffer\[ALIGN \(6 \+ 65536\)\]", "pes_buffer[PESCAP_SCALED]")]},
+           patch={"src/dvb_demux.c": [(r"pes_buffer\[ALIGN \(6 \+ 65536\)\]", "pes_buffer[PESCAP_SCALED]"), RF]},
            desc=pk_desc + "  [TS mode]", encodes=pk_enc + ["demux_ts_packet"],
            assumes=pk_assumes + ["scaled unit: dvb_demux.c compiled with pes_buffer[576] instead of [65552] (PES packets here are <= 552 bytes; any access beyond is a bounds failure) "
                                  "- the TS demultiplexer addresses dx->pes_buffer directly and symex over the 64 KB array took ~40 s per Teletext unit"],
